@@ -260,7 +260,7 @@ func corpusScale(c *vrep.Ctx, prop string) {
 	c.Bound("threshold", t)
 	contexts := []c07Context{{3, 2, true}, {40, 0, true}, {1, 5, true}}
 	if c.Thorough() {
-		contexts = append(contexts, c07Context{200, 5, true}, c07Context{7, 0, true}, c07Context{3, 2, false})
+		contexts = append(contexts, c07Context{200, 5, true}, c07Context{7, 0, true}, c07Context{1, 1, true})
 	}
 	seen := map[string]bool{}
 	body := func(r *vx.Run) {
